@@ -48,3 +48,26 @@ Example C11_example :
   acao (cors {| origins := [lit "https://*.example.com"]; creds := true; unsafe_wild := false |} false
             (lit "https://x.example.com")) = Some (lit "https://x.example.com").
 Proof. vm_compute. repeat split. Qed.
+
+(* ---- tie to the source by proof: the request handler (innermost closure) of CORSWithConfig, translated statement by
+   statement from middleware/cors.go on every run (Gen/Src_cors.v, language Base/GoLoop.v: strings, `for range` with `break`,
+   pure predicates), decides exactly like the model [cors] the theorems above are about.  For every configuration c (allow
+   list, AllowCredentials, the unsafe-wildcard switch; no AllowOriginFunc), every Origin value, preflight or not, and every
+   value of the remaining constants of the closure: the Access-Control-Allow-Origin and -Credentials headers it sets, whether
+   next is called, whether it answers 204 itself, and what it returns (200 = the result of next, 204, 401) are those of
+   [cors c preflight origin].  matchSubdomain, len, strings.Contains and the compiled patterns are read as the model reads
+   them ([cpred]: match_subdomain, the length, "contains ://", the anchored glob rm). *)
+From Echo Require Import Base.GoLoop Gen.Src_cors Mw.CorsSrc.
+
+Theorem C11_source_handler : forall c origin preflight hc am ah eh mas rh ma tam okf,
+  let '(st', ret) := GoLoop.run (csym c origin preflight hc am ah eh mas rh ma) cpred src_cors_handler_results src_cors_handler (start c tam okf) in
+  let o := cors c preflight origin in
+  sets "echo.HeaderAccessControlAllowOrigin" st' =
+    match acao o with Some v => [[VS (lit "echo.HeaderAccessControlAllowOrigin"); VS v]] | None => [] end /\
+  sets "echo.HeaderAccessControlAllowCredentials" st' =
+    (if acac o then [[VS (lit "echo.HeaderAccessControlAllowCredentials"); VS (lit "true")]] else []) /\
+  called "next" st' = ran o /\
+  called "c.NoContent" st' = (forced o =? 204)%Z /\
+  ret = [VZ (if ran o then 200 else forced o)%Z].
+Proof. exact src_cors_handler_spec. Qed.
+Print Assumptions C11_source_handler.
